@@ -595,17 +595,27 @@ pub fn hostile_probe(s: &Sim, full: bool) -> StateObs {
     // sudo: acknowledgements / timeouts for unknown and known sequences, own and other channel
     let mut seqs: Vec<u64> = vec![0, 999, u64::MAX];
     seqs.extend(s.m.packets.keys().take(2));
+    // acknowledgement texts are written by the counterparty chain (ibc-hooks passes json.Marshal(string(ack))):
+    // empty, truncated JSON, long, and multi-byte characters straddling every power-of-two offset up to 4096
+    let mut acks: Vec<String> = vec![String::new(), "{".into(), "\u{fffd}".repeat(300), "x".repeat(70_000)];
+    for k in [15usize, 31, 63, 127, 255, 511, 1023, 4095] {
+        acks.push(format!("{}{}", "a".repeat(k), "\u{e9}".repeat(8)));
+        acks.push(format!("{}{}", "a".repeat(k - 1), "\u{20ac}".repeat(8)));
+    }
     for ch in [SIM_CHANNEL.to_string(), "channel-9".to_string(), String::new()] {
         for seq in &seqs {
-            for m in [
-                SudoMsg::IBCLifecycleComplete(IBCLifecycleComplete::IBCAck { channel: ch.clone(), sequence: *seq, ack: String::new(), success: true }),
-                SudoMsg::IBCLifecycleComplete(IBCLifecycleComplete::IBCAck { channel: ch.clone(), sequence: *seq, ack: "{".into(), success: false }),
-                SudoMsg::IBCLifecycleComplete(IBCLifecycleComplete::IBCTimeout { channel: ch.clone(), sequence: *seq }),
-            ] {
+            let mut msgs = vec![SudoMsg::IBCLifecycleComplete(IBCLifecycleComplete::IBCTimeout { channel: ch.clone(), sequence: *seq })];
+            for (i, ack) in acks.iter().enumerate() {
+                msgs.push(SudoMsg::IBCLifecycleComplete(IBCLifecycleComplete::IBCAck { channel: ch.clone(), sequence: *seq, ack: ack.clone(), success: i % 2 == 0 }));
+                if i < 2 {
+                    msgs.push(SudoMsg::IBCLifecycleComplete(IBCLifecycleComplete::IBCAck { channel: ch.clone(), sequence: *seq, ack: ack.clone(), success: i % 2 == 1 }));
+                }
+            }
+            for m in msgs {
                 let mut w = s.w.clone();
                 let out = w.sudo(m.clone());
                 o.probes += 1;
-                note(&mut o, format!("sudo {:?}", m), &out.panicked);
+                note(&mut o, format!("sudo {}", format!("{:?}", m).chars().take(200).collect::<String>()), &out.panicked);
             }
         }
     }
@@ -613,6 +623,9 @@ pub fn hostile_probe(s: &Sim, full: bool) -> StateObs {
     for id in [0u64, 1, s.w.time * 1_000_000_000 + TX_INDEX as u64, u64::MAX] {
         for result in [
             SubMsgResult::Err("boom".into()),
+            SubMsgResult::Err(format!("{}{}", "e".repeat(255), "\u{e9}".repeat(40))),
+            SubMsgResult::Ok(SubMsgResponse { events: vec![], data: Some(Binary::from(vec![0x08; 5000])) }),
+            SubMsgResult::Ok(SubMsgResponse { events: vec![], data: Some(Binary::from(vec![0x08, 0xff, 0xff, 0xff, 0xff, 0xff, 0xff, 0xff, 0xff, 0xff, 0x7f])) }),
             SubMsgResult::Ok(SubMsgResponse { events: vec![], data: None }),
             SubMsgResult::Ok(SubMsgResponse { events: vec![], data: Some(Binary::from(vec![0xff, 0xff, 0xff])) }),
             SubMsgResult::Ok(SubMsgResponse { events: vec![], data: Some(Binary::from(vec![0x08, 0x07])) }),
